@@ -152,7 +152,7 @@ func consumeN(addr string, f feat, topic, channel string, n int) ([][]byte, erro
 			return nil, err
 		}
 		for len(raws) < n {
-			ft, data, err := c.readFrame(60 * time.Second)
+			ft, data, err := c.readFrame(readDeadline)
 			if err != nil {
 				return raws, fmt.Errorf("after %d of %d messages: %v", len(raws), n, err)
 			}
@@ -351,13 +351,18 @@ func httpCase(in caseIn, name string) {
 	}
 	count := topicMessageCount(hd, topic)
 	raws, cerr := consumeN(hd.tcp, feat{NoID: small}, topic, "c", int(count))
+	extra := []string{}
 	if cerr != nil {
-		lib.Fatalf("%s: consuming %d messages of %s: %v", name, count, topic, cerr)
+		// judged with what did arrive
+		liveFailures++
+		extra = append(extra, "http=consume-incomplete")
+		out.Stat("http_consume_incomplete_"+name, cerr.Error())
 	}
 	var got [][]byte
 	for _, raw := range raws {
 		if len(raw) < 26 {
-			lib.Fatalf("message frame of %d bytes", len(raw))
+			got = append(got, nil)
+			continue
 		}
 		got = append(got, raw[26:])
 	}
@@ -367,6 +372,6 @@ func httpCase(in caseIn, name string) {
 		Coq: fmt.Sprintf("(J07.CHttp %s %s %s %s %s %s %s %s %s %s %s)", lib.CoqN(uint64(kind)), lib.CoqZ(hd.maxMsg), lib.CoqZ(hd.maxBody), lib.CoqZ(cl),
 			lib.CoqBytes(body), lib.CoqN(uint64(intent)), lib.CoqBytesList(want), lib.CoqZ(int64(status)), lib.CoqN(errCode(status, msg)),
 			lib.CoqZ(count), lib.CoqBytesList(got)),
-		Input: in, Tags: []string{"kind=http", "http=" + cls, fmt.Sprintf("http_status=%d:%s", status, msg), fmt.Sprintf("chunked=%v", chunked), fmt.Sprintf("small_limits=%v", small)},
+		Input: in, Tags: append(extra, "kind=http", "http="+cls, fmt.Sprintf("http_status=%d:%s", status, msg), fmt.Sprintf("chunked=%v", chunked), fmt.Sprintf("small_limits=%v", small)),
 		Nontrivial: true, Obs: map[string]interface{}{"status": status, "message": msg, "count": count}})
 }
